@@ -822,6 +822,24 @@ fn gen_c19_conv(r: &mut Rng) -> Plan {
     }
     p.arrival = gen_arrival(r);
     p.writes = gen_writes(r, false);
+    if r.chance(1, 12) && matches!(p.handshake.body, HsBody::V41 { .. }) {
+        // a TLS conversation: every fault then lands underneath rustls (or on the plaintext
+        // greeting / SSLRequest); end-of-stream offsets are not enumerated for these
+        let cert = r.coin();
+        p.cfg.tls_offered = true;
+        p.cfg.tls_require_cert = cert;
+        p.cfg.tls = Some(TlsClient {
+            cert,
+            v13: r.coin(),
+            seed: r.next(),
+        });
+        p.handshake.seq = 1;
+        if let HsBody::V41 { caps, .. } = &mut p.handshake.body {
+            *caps &= !CLIENT_SSL;
+        }
+        p.writes = WriteSched::all();
+        p.cmds.truncate(4);
+    }
     p
 }
 
@@ -903,6 +921,10 @@ impl Check for C19 {
                 ctx.eval(&p);
             }
         }
+        if base.cfg.tls.is_some() {
+            ctx.stats.bump("enum.tls_conversations", 1);
+            return;
+        }
         for k in 0..=n_bytes {
             p.faults = vec![Fault {
                 at: FaultAt::ClientByte(k),
@@ -940,7 +962,9 @@ impl Check for C19 {
         }
         // no callback may start after the failing operation (a retried Interrupted is not a
         // failure)
-        let benign = matches!(fault.kind, FaultKind::Err(IoKind::Interrupted));
+        // Interrupted and a zero-length write are not error reports: the caller may retry
+        // (write_all retries the former, rustls retries both) or give up; either is fine
+        let benign = matches!(fault.kind, FaultKind::Err(IoKind::Interrupted) | FaultKind::ZeroWrite);
         if let Some((op, cb)) = w.callbacks.iter().find(|(op, _)| *op > fop && !benign) {
             vs.push(v(
                 "fault-callback-after",
@@ -988,7 +1012,7 @@ impl Check for C19 {
                     _ => {}
                 }
             }
-            FaultKind::Err(IoKind::Interrupted) => {
+            FaultKind::Err(IoKind::Interrupted) | FaultKind::ZeroWrite => {
                 // benign or fatal, never masked into a different outcome: either an error, or
                 // exactly the fault-free end
                 match (&out.end, &out.model.end) {
@@ -999,7 +1023,7 @@ impl Check for C19 {
                     (e, m) => vs.push(v(
                         "fault-masked",
                         "interrupted",
-                        format!("Interrupted at op {}: run_on returned {:?}, fault-free expectation {:?}", fop, e, m),
+                        format!("{} at op {}: run_on returned {:?}, fault-free expectation {:?}", fdesc, fop, e, m),
                     )),
                 }
             }
@@ -1018,8 +1042,8 @@ impl Check for C19 {
         vec![
             "fault points are enumerated completely per conversation; conversations are sampled",
             "a fault is injected on a transport call the server actually makes (the simulator only acts when called)",
-            "Interrupted may be retried (write_all) or reported; both are accepted",
-            "TLS conversations are not part of the enumeration (plaintext transport only)",
+            "Interrupted and a zero-length write (Ok(0)) are not error reports: they may be retried (write_all retries Interrupted, rustls retries both) or reported; both outcomes are accepted",
+            "about 1 in 12 conversations runs over TLS: operation-index faults then land underneath rustls; end-of-stream offsets are enumerated for plaintext conversations only",
         ]
     }
     fn probes(&self) -> &'static [&'static str] {
